@@ -327,17 +327,19 @@ func TestE3Leader(t *testing.T) {
 				}
 				// a member that left the follower table and is in it again has a NEW record: requests in
 				// flight to it belong to the orphaned one (the model has no record identity): fail them
+				recreated := map[string][]int{}
 				{
 					was := map[string]bool{}
 					for _, f := range strings.Split(ParseKV(mnode)["fol"], ";") {
 						was[strings.Split(f, ".")[0]] = true
 					}
-					for _, st := range chosen.states {
+					for si, st := range chosen.states {
 						now := map[string]bool{}
 						for _, f := range strings.Split(ParseKV(st)["fol"], ";") {
 							id := strings.Split(f, ".")[0]
 							now[id] = true
 							if !was[id] {
+								recreated[id] = append(recreated[id], si)
 								for c := range outstanding {
 									if fmt.Sprint(c.To) == id {
 										s.Fail(c)
@@ -352,7 +354,21 @@ func TestE3Leader(t *testing.T) {
 				}
 				mnode = chosen.final
 				for c, r := range chosenRounds {
-					outstanding[c] = r
+					var round, at int
+					fmt.Sscanf(r, "%d@%d", &round, &at)
+					// a request spawned before its peer's record was re-created in this same cascade
+					// also belongs to the orphaned record
+					orphan := false
+					for _, ri := range recreated[fmt.Sprint(c.To)] {
+						if ri > at {
+							orphan = true
+						}
+					}
+					if orphan {
+						s.Fail(c)
+						continue
+					}
+					outstanding[c] = strconv.Itoa(round)
 					rep.Hit("request:" + c.Kind)
 				}
 				for _, c := range newCalls {
@@ -595,7 +611,7 @@ func compareOutcome(drv *Driver, o *cascadeOutcome, post NodeSt, eff string, new
 		return &Finding{Kind: "mismatch", Property: "C04", Case: line, Impl: fmt.Sprintf("%d requests", len(newCalls)), Model: fmt.Sprintf("%d spawns", len(srecs)), Diff: []string{"the requests sent cannot be matched one to one with the goroutines the model spawns"}}, nil
 	}
 	for ci, c := range newCalls {
-		rounds[c] = strconv.Itoa(srecs[assign[ci]].round)
+		rounds[c] = fmt.Sprintf("%d@%d", srecs[assign[ci]].round, srecs[assign[ci]].at)
 	}
 	for _, sr := range srecs {
 		if sr.used {
